@@ -300,6 +300,7 @@ def run_case(case: dict, ctx: dict) -> dict:
         else:
             res = proc.run_invocation(inv)
         bump("status", res["status"])
+        ev_digests.append(res["status"] + ":" + ",".join(sorted(e[2] for e in res["events"] if e[1] == "open-w" and str(e[2]).startswith("@"))).replace(os.path.relpath(world.out_dir, sandbox), "<out>"))
         if not nnvg.succeeded(res):
             return None, res
         tree = {}
@@ -310,6 +311,7 @@ def run_case(case: dict, ctx: dict) -> dict:
 
     violations = []  # type: typing.List[dict]
     states = []  # type: typing.List[str]
+    ev_digests = []  # type: typing.List[str]
     evaluations = 0
     compared = 0
     sim_time = 0.0
@@ -368,7 +370,7 @@ def run_case(case: dict, ctx: dict) -> dict:
         "counters": counters,
         "sim_time_s": sim_time,
         "sample": {"opts": opts, "worlds": worlds[:3], "n_files": len(base_tree)},
-        "digest": hashlib.sha256("|".join(states).encode()).hexdigest()[:16],
+        "digest": hashlib.sha256(("|".join(ev_digests) + "|".join(sorted(v["signature"] for v in violations)) + repr(worlds)).encode()).hexdigest()[:16],
     }
 
 
